@@ -22,6 +22,15 @@
 (*              (tracker state, message, observation).  The same definitions *)
 (*              judge the model (LifecycleMC) and the real code              *)
 (*              (LifecycleMon).                                              *)
+(*                                                                           *)
+(* Everything here is SEQUENTIAL (one message, everything it causes, the     *)
+(* next message) and looks at the session only.  Two extensions build on it: *)
+(*  LifecycleRun   handlers with a DURATION: messages delivered while the    *)
+(*                 handler of an earlier call or notification is still       *)
+(*                 running; "ping is always served" as PingAlwaysServed      *)
+(*  LifecycleHttp  the streamable HTTP transports: Mcp-Protocol-Version      *)
+(*                 header x per-request _meta of the body x endpoint /       *)
+(*                 session phase (the two may disagree)                      *)
 EXTENDS Integers, Sequences, FiniteSets, TLC
 
 \* types for Apalache (comments for TLC): a letter, the code-shaped session state, an observation, the phase tracker
